@@ -282,20 +282,31 @@ Proof.
 Qed.
 
 (* slot flags on a serialized entry *)
-Theorem serialized_flags e ft b : entry_wf e -> serialize e ft = Val b ->
+Lemma serialized_flags3 e ft b : entry_wf e -> serialize e ft = Val b ->
   is_end b = Val (hd 0 (name e) =? 0) /\
   is_valid b = Val (negb (hd 0 (name e) =? 0) && negb (hd 0 (name e) =? 229)) /\
   is_lfn b = Val (attr_lfn (attributes e)) /\
-  (forall sfn, length sfn = 11%nat -> matches b sfn = Val (list_eqb (name e) sfn)).
+  (forall sfn, (if Nat.leb 11 (length b) then Val (list_eqb (firstn 11 b) sfn) else Panic) = Val (list_eqb (name e) sfn)).
 Proof.
   intros Hwf Hs. pose proof Hwf as (Hlen & Hnb & Hm & Hc & Ha & Hcl & Hsz).
   destruct (entry_roundtrip_general e ft 0 0 b Hwf Hs) as (cd & md & Ecd & Emd & Hb & _).
   destruct e as [nm mt ct attr cl sz eb eo]. cbn [name mtime ctime attributes cluster size] in *.
-  list11 nm. subst b. unfold layout, is_valid, is_end, is_lfn, matches, raw_attr, read_u8.
+  list11 nm. subst b. unfold layout, is_valid, is_end, is_lfn, raw_attr, read_u8.
   cbn [app length Nat.ltb Nat.leb nth bind hd firstn].
   rewrite attr_lfn_eq by exact Ha.
   repeat split.
   destruct (n =? 0); reflexivity.
+Qed.
+
+Theorem serialized_flags e ft b : entry_wf e -> serialize e ft = Val b ->
+  is_end b = Val (hd 0 (name e) =? 0) /\
+  is_valid b = Val (negb (hd 0 (name e) =? 0) && negb (hd 0 (name e) =? 229)) /\
+  is_lfn b = Val (attr_lfn (attributes e)) /\
+  (forall sfn, length sfn = 11%nat -> matches b sfn = Val (negb (attr_lfn (attributes e)) && list_eqb (name e) sfn)).
+Proof.
+  intros Hwf Hs. destruct (serialized_flags3 e ft b Hwf Hs) as (A & B & C & D).
+  repeat (split; [assumption|]). intros sfn _. unfold matches. rewrite C. cbn [bind].
+  destruct (attr_lfn (attributes e)); [reflexivity|]. cbn [negb andb]. apply D.
 Qed.
 
 (* ---- LFN checksum *)
